@@ -289,11 +289,18 @@ def make_module(cfg):
             m.non_tensor = 7
             return m
 
+        nshared = [0]
+
         def top(prefix):
             tensors = []
             m = OptimizerModule()
             for i, node in enumerate(spec):
+                before = len(tensors)
                 setattr(m, f"a{i}", mk(node, tensors, prefix))
+                if i == 0 and cfg.get("shared") and node != "T":
+                    # the same container / module object reachable through a second attribute path (a DAG, no cycle)
+                    m.alias0 = m.a0
+                    nshared[0] = len(tensors) - before
             return m, tensors
 
         src, src_t = top("s")
@@ -311,7 +318,7 @@ def make_module(cfg):
                 symx.prove("state-dict holds only dicts and tensors", False, info)
 
         walk(sd)
-        symx.prove("every reachable tensor appears exactly once", len(found) == len(src_t), info)
+        symx.prove("every reachable tensor appears once per path that reaches it", len(found) == len(src_t) + nshared[0], info)
         for t in src_t:
             hits = [f for f in found if f.a is t.a or (f.a.base is t.a) or (f.a.shape == t.a.shape and all(x is y for x, y in zip(f.a.reshape(-1), t.a.reshape(-1))))]
             symx.prove("state-dict tensor aliases/equals the module tensor", len(hits) >= 1, info)
@@ -338,6 +345,14 @@ def make_module(cfg):
                     collect(v)
 
         collect(dst)
+        if nshared[0]:
+            # the shared container is walked twice (a0, alias0): drop the second visit
+            seen_ids, uniq = set(), []
+            for t in after:
+                if id(t) not in seen_ids:
+                    seen_ids.add(id(t))
+                    uniq.append(t)
+            after = uniq
         symx.prove("tensor objects are not replaced by load_state_dict", [id(t) for t in after] == ids_before and all(t.a is a for t, a in zip(after, arrs_before)), info)
         for ti, (td, ts) in enumerate(zip(dst_t, src_t)):
             symx.prove(f"loaded tensor {ti} keeps its shape", tuple(td.shape) == tuple(ts.shape), info)
@@ -449,6 +464,10 @@ def run(tier, seed, argv):
     mjobs = [dict(id=f"m{i}", module="checks.c16", factory="make_module", cfg=dict(graph=g, symkeys=bool(i % 2), layout_shift=i % len(LAYOUTS))) for i, g in enumerate(module_graphs())]
     if tier == "quick":
         mjobs = mjobs[:30]
+    # shared (non-tensor) objects: the first attribute's container / module is also reachable through a second attribute
+    sh = [g for g in module_graphs() if g[0] != "T"]
+    mjobs += [dict(id=f"h{i}", module="checks.c16", factory="make_module", cfg=dict(graph=g, symkeys=bool(i % 2), layout_shift=i % len(LAYOUTS), shared=True))
+              for i, g in enumerate(sh[: (12 if tier == "quick" else len(sh))])]
     rep.absorb("module", par.run_jobs(mjobs, chunk=4))
     tw = par.run_jobs([dict(id="twin0", module="checks.c16", factory="make", cfg=dict(tree=("L", "L"), kinds="S", twin="lose-a-key"))])
     rep.twin_expected = 1
@@ -550,11 +569,17 @@ def replay(record):
                 setattr(mm, f"attr{i}", v)
             return mm
 
+        nshared = [0]
+
         def top(base):
             ts = []
             mm = OptimizerModule()
             for i, node in enumerate(spec):
+                before = len(ts)
                 setattr(mm, f"a{i}", mk(node, ts, base))
+                if i == 0 and cfg.get("shared") and node != "T":
+                    mm.alias0 = mm.a0
+                    nshared[0] = len(ts) - before
             return mm, ts
 
         src, st = top(1.0)
@@ -576,8 +601,8 @@ def replay(record):
                     walk(v)
 
         walk(sd)
-        if cnt[0] != len(st):
-            probs.append(f"{len(st)} tensors reachable, {cnt[0]} in state dict")
+        if cnt[0] != len(st) + nshared[0]:
+            probs.append(f"{len(st)} tensors reachable ({nshared[0]} of them through two paths), {cnt[0]} entries in the state dict")
         for a, b2 in zip(dt, st):
             if not torch.equal(a, b2):
                 probs.append("value not loaded")
